@@ -73,6 +73,14 @@ Holds(e, S, R, status) ==
                            IF b <= 0 \/ a < 0 THEN TRUE
                            ELSE IF a >= b THEN r = 100000
                            ELSE r >= 0 /\ r <= 100000 /\ Abs(MulRatio(b, r) - a) <= (b \div 100000) + 2
+    (* N.C. child deduction worksheet line 4 (D-400 instructions, "Child Deduction" table): by filing status and federal AGI (line 2).  *)
+    (* Bands of e.k dollars width start above e.num dollars for the status group; each band lowers the deduction by $500 from e.den.   *)
+    (* consts: per status, the group's first band limit in dollars (0 = the status has no column)                                      *)
+    [] e.op = "ncchild" -> LET agi == S[e.args[1]]
+                               base == e.consts[status] * 100
+                               step == (base \div 2)                       \* each group's bands are half of its first limit wide
+                               band == IF agi <= base THEN 0 ELSE ((agi - base) + step - 1) \div step
+                           IN base > 0 => v = Max(0, e.den * 100 - 50000 * band)
     [] e.op = "absent" -> FALSE          \* the instruction sends this line to a worksheet that the solution does not contain
     (* 2021 Recovery Rebate Credit Worksheet line 6: $1,400; $2,800 on a joint return if question 2 or 3 was answered yes; nothing *)
     (* if the only qualifying social security numbers are those of dependents.  args = the worksheet's lines 2, 3, 4, 5         *)
